@@ -175,6 +175,8 @@ package stick
 //@   requires meta: a2.Index == a2.Index0 + 1 && a2.Index0 == a2.Length - a2.Revindex && a2.Revindex == a2.Revindex0 + 1 && a2.First == (a2.Index0 == 0) && a2.Last == (a2.Revindex0 == 0) && 0 <= a2.Index0 && a2.Index0 < a2.Length
 
 //@ func stick.Iterate
+// C06/C17: an error returned by the callback ends the iteration and is returned, whatever its break flag says
+//@   propagates
 //@   requires cb: it != nil
 //@   ensures nilval: val == nil ==> r0 == 0 && err == nil
 //@   ensures notiter: val != nil && !iterk(ikind(val)) ==> err != nil && r0 == 0
@@ -304,6 +306,9 @@ package stick
 //@ func stick.(*state).walkForNode
 // C06: the else branch runs exactly when no element was visited and nothing failed
 //@   at "s.walk(node.Else)" empty: ct == 0 && err == nil
+// every successful return has been through Iterate (the sequence has been counted): an early success return would skip
+// the else branch of a null or empty sequence
+//@   asserts! counted: err == nil ==> ct >= 0
 // C07: the loop's key, value and loop variables are bound with setLocal in the scope pushed by this very iteration
 // (a fresh map, dropped again by the deferred pop), never in a scope that existed before
 //@   at "s.scope.setLocal(kn, k)" own: fresh(top(s.scope))
